@@ -465,6 +465,21 @@ func wholeMenu(w *world.World, o menuOpts) []world.Action {
 		uni.Call(uni.A0, uni.A0, vmcommon.BuiltInFunctionSaveKeyValue, []byte("k"), []byte("v"), []byte("k"), e, []byte("k"), []byte("w")),
 		uni.Multi(uni.A0, uni.B0, []uni.Ent{{Tok: uni.F, Nonce: 0, Q: 1}, {Tok: uni.S, Nonce: 1, Q: 1}, {Tok: uni.F, Nonce: 0, Q: 1}}),
 	)
+	acts = append(acts, boundaryNonceCalls()...)
+	if o.undisciplined {
+		// role messages no disciplined system contract sends (a name twice, an unknown name)
+		acts = append(acts,
+			uni.SetRole(uni.B0, uni.S, vmcommon.ESDTRoleNFTBurn, vmcommon.ESDTRoleNFTBurn, vmcommon.ESDTRoleNFTAddQuantity),
+			uni.UnSetRole(uni.A0, uni.S, vmcommon.ESDTRoleNFTBurn, "ESDTRoleUnknown", vmcommon.ESDTRoleNFTBurn))
+	}
+	return acts
+}
+
+// boundaryNonceCalls: every nonce-taking function of a0 with nonces at the word boundary, given on
+// 8 and on 9+ bytes (2^64-1 and 2^64-2 mirror nonces 1 and 2 under a signed conversion; 2^64+1 and
+// the zero-padded 1 are read as nonce 1).
+func boundaryNonceCalls() []world.Action {
+	var acts []world.Action
 	// nonces at the word boundary, given on 8 and on 9+ bytes (no such holding exists: every call
 	// must be refused and touch nothing)
 	for _, n := range [][]byte{bytes.Repeat([]byte{0xff}, 8), {0xff, 0xff, 0xff, 0xff, 0xff, 0xff, 0xff, 0xfe}, {0x80, 0, 0, 0, 0, 0, 0, 0}, {0x80, 0, 0, 0, 0, 0, 0, 1},
@@ -478,12 +493,6 @@ func wholeMenu(w *world.World, o menuOpts) []world.Action {
 			uni.Call(uni.A0, uni.A0, vmcommon.BuiltInFunctionESDTNFTTransfer, uni.S, n, uni.Big(1), uni.C1),
 			uni.Call(uni.A0, uni.A0, vmcommon.BuiltInFunctionMultiESDTNFTTransfer, uni.C1, uni.Big(1), uni.S, n, uni.Big(1)),
 			uni.Call(uni.A0, uni.A0, vmcommon.BuiltInFunctionMultiESDTNFTTransfer, uni.B0, uni.Big(1), uni.S, n, uni.Big(1)))
-	}
-	if o.undisciplined {
-		// role messages no disciplined system contract sends (a name twice, an unknown name)
-		acts = append(acts,
-			uni.SetRole(uni.B0, uni.S, vmcommon.ESDTRoleNFTBurn, vmcommon.ESDTRoleNFTBurn, vmcommon.ESDTRoleNFTAddQuantity),
-			uni.UnSetRole(uni.A0, uni.S, vmcommon.ESDTRoleNFTBurn, "ESDTRoleUnknown", vmcommon.ESDTRoleNFTBurn))
 	}
 	return acts
 }
